@@ -7,6 +7,8 @@ namespace Verif.Proofs
 
 open Verif
 
+set_option linter.unusedSimpArgs false
+
 /-! ### facts about the generated constants (the only place the filter ids' values matter) -/
 
 /-- the ten filter choices and the custom filter choice are pairwise distinct -/
@@ -43,9 +45,9 @@ theorem decSubstr_final (f : Option Bytes) (fuel : Nat) (acc : SubstrAcc)
   | none =>
     obtain ⟨i, a, fin⟩ := acc
     simp only at ha; subst ha
-    simp [optBytes, decSubstrLoop_nil]
+    simp [optBytes_none, optBytes_some, decSubstrLoop_nil]
   | some v =>
-    simp only [optBytes, packOctets_eq] at hf ⊢
+    simp only [optBytes_none, optBytes_some, packOctets_eq] at hf ⊢
     have := packTLV_length (tagCtx 2) v
     cases fuel with
     | zero => omega
@@ -85,11 +87,11 @@ theorem decSubstr_enc (i : Option Bytes) (any : List Bytes) (f : Option Bytes) (
       ++ optBytes (tagCtx 2) f) {} = .ok ⟨i, any, f⟩ := by
   cases i with
   | none =>
-    simp only [optBytes, List.nil_append] at hf ⊢
+    simp only [optBytes_none, optBytes_some, List.nil_append] at hf ⊢
     rw [decSubstr_any f any fuel {} rfl hf]
     simp
   | some v =>
-    simp only [optBytes, List.append_assoc, packOctets_eq] at hf ⊢
+    simp only [optBytes_none, optBytes_some, List.append_assoc, packOctets_eq] at hf ⊢
     have := packTLV_length (tagCtx 0) v
     rw [List.length_append] at hf
     cases fuel with
@@ -145,7 +147,7 @@ theorem decExt_val (v : Bytes) (dn : Bool) (fuel : Nat) (acc : ExtAcc) (ha : acc
   | succ fuel =>
     rw [decExtLoop_step3]
     cases dn with
-    | false => simp [decExtLoop_nil, ← ha]
+    | false => simp [decExtLoop_nil, ha]
     | true =>
       simp only [↓reduceIte] at hf ⊢
       have h4 := packTLV_length (tagCtx 4) [255]
@@ -164,16 +166,15 @@ theorem decExt_attr (attr : Option Bytes) (v : Bytes) (dn : Bool) (fuel : Nat) (
       = .ok { acc with attr := attr, val := v, dn := dn } := by
   cases attr with
   | none =>
-    simp only [optBytes, List.nil_append] at hf ⊢
+    simp only [optBytes_none, optBytes_some, List.nil_append] at hf ⊢
     rw [decExt_val v dn fuel acc ha hf, ← haa]
   | some a =>
-    simp only [optBytes, List.length_append] at hf ⊢
-    rw [packOctets_eq a] at hf ⊢
+    simp only [optBytes_none, optBytes_some, List.length_append] at hf ⊢
     have h2 := packTLV_length (tagCtx 2) a
     cases fuel with
     | zero => omega
     | succ fuel =>
-      rw [decExtLoop_step2 _ _ _ _ hw, decExt_val v dn fuel _ ha (by rw [List.length_append]; omega)]
+      rw [decExtLoop_step2 _ _ _ _ hw, decExt_val v dn fuel { acc with attr := some a } ha (by rw [List.length_append]; omega)]
 
 theorem decExt_enc (rule attr : Option Bytes) (v : Bytes) (dn : Bool) (fuel : Nat)
     (hr : optText rule) (hw : optText attr)
@@ -184,17 +185,16 @@ theorem decExt_enc (rule attr : Option Bytes) (v : Bytes) (dn : Bool) (fuel : Na
   simp only [List.append_assoc] at hf ⊢
   cases rule with
   | none =>
-    simp only [optBytes, List.nil_append] at hf ⊢
+    simp only [optBytes_none, optBytes_some, List.nil_append] at hf ⊢
     rw [decExt_attr attr v dn fuel {} rfl rfl hw hf]
   | some r =>
-    simp only [optBytes] at hf ⊢
-    rw [packOctets_eq r] at hf ⊢
+    simp only [optBytes_none, optBytes_some] at hf ⊢
     rw [List.length_append] at hf
     have h1 := packTLV_length (tagCtx 1) r
     cases fuel with
     | zero => omega
     | succ fuel =>
-      rw [decExtLoop_step1 _ _ _ _ hr, decExt_attr attr v dn fuel _ rfl rfl hw (by omega)]
+      rw [decExtLoop_step1 _ _ _ _ hr, decExt_attr attr v dn fuel { rule := some r } rfl rfl hw (by omega)]
 
 /-! ### attribute-value assertions -/
 
